@@ -451,6 +451,33 @@ def process_template(unit, tpl_path):
                 unit.emit('pub const %s: %s = %s;' % (m.group(3), m.group(4), m.group(5).strip()), '%s:%d' % (rel, line_of(src, m.start())))
                 unit.stats['R7_const'] = unit.stats.get('R7_const', 0) + 1
             i += 1
+        elif cmd == 'interface':
+            # //@interface <label> <props> <caller file> <caller fn> <callee file> <callee fn>
+            lab, props, f1, n1, f2, n2 = arg.split()
+            def ret_of(rel, fname):
+                src = unit.read_repo(rel)
+                ls, bo, be = find_fn(src, fname)
+                sig = src[ls:bo]
+                m = re.search(r'->\s*(.*)$', sig, re.S)
+                if not m:
+                    raise AssembleError('interface: %s has no return type' % fname)
+                t = norm_ws(m.group(1))
+                mm = re.match(r'(?:StdResult|Result)<\s*(.*?)\s*(?:,\s*\w+\s*)?>$', t)
+                return (mm.group(1) if mm else t), '%s:%d' % (rel, line_of(src, ls))
+            t1, o1 = ret_of(f1, n1)
+            t2, o2 = ret_of(f2, n2)
+            unit.emit('// caller %s::%s deserialises `%s` (%s); callee %s::%s serialises `%s` (%s)' % (f1, n1, t1, o1, f2, n2, t2, o2), rel_tpl)
+            unit.theorems.append({'name': 'interface_' + lab, 'out_line': unit.cur_line(), 'spec': '%s:%d' % (rel_tpl, i + 1)})
+            unit.emit('pub proof fn interface_%s()' % lab, rel_tpl)
+            unit.labels.append({'out_line': unit.cur_line(), 'props': props.split(','), 'name': 'interface_' + lab, 'fn': None, 'spec': '%s:%d' % (rel_tpl, i + 1)})
+            unit.emit('    ensures "%s"@ == "%s"@, //# %s interface_%s' % (t1, t2, props, lab), rel_tpl)
+            unit.emit('{}', rel_tpl)
+            if t1 != t2:
+                unit.theorems.append({'name': 'W_interface_%s_types_differ' % lab, 'out_line': unit.cur_line(), 'spec': '%s:%d' % (rel_tpl, i + 1)})
+                unit.emit('pub proof fn W_interface_%s_types_differ()\n    ensures "%s"@ != "%s"@,\n{ reveal_strlit("%s"); reveal_strlit("%s"); assert("%s"@.len() != "%s"@.len() || "%s"@[0] != "%s"@[0]); }'
+                          % (lab, t1, t2, t1, t2, t1, t2, t1, t2), rel_tpl)
+            unit.stats['interface_pairs'] = unit.stats.get('interface_pairs', 0) + 1
+            i += 1
         elif cmd == 'const':
             cparts = arg.split(None, 3)
             rel, name = cparts[0], cparts[1]
